@@ -306,7 +306,19 @@ func (e *Env) eval(x Expr) Val {
 		var bs []string
 		for _, b := range x.Vars {
 			srt, gt := e.resolveType(b.Type)
-			sym := quote("q_" + b.Name)
+			// binders are named per quantifier NODE of the contract source: a spec function whose body binds `k`, applied to an
+			// argument that mentions an enclosing quantifier's `k`, must not capture it (macro expansion substitutes evaluated
+			// terms); two expansions of the same spec function still yield syntactically identical formulas, which the
+			// solvers rely on (`old(P(s)) ==> P(s)` with nothing changed is `A ==> A`)
+			if g.binderIDs == nil {
+				g.binderIDs = map[*EQuant]int{}
+			}
+			qid, seen := g.binderIDs[x]
+			if !seen {
+				qid = len(g.binderIDs) + 1
+				g.binderIDs[x] = qid
+			}
+			sym := quote(fmt.Sprintf("q_%s.%d", b.Name, qid))
 			n.vars[b.Name] = Val{T: sym, Sort: srt, Go: gt}
 			n.bound[b.Name] = true
 			bs = append(bs, "("+sym+" "+srt+")")
